@@ -180,7 +180,7 @@ Done == i > Len(slots)
 (* Observation points and the predictions                                  *)
 (***************************************************************************)
 YAlt1 == <<3, 0, 1, 4, 6>>
-YAlt2 == <<0, 4, 7, 1, 2>>
+YAlt2 == <<0, 0 - 4, 7, 0 - 1, 2>>      \* states may be negative: sign tests in rate laws see both sides
 Points ==
     <<[y |-> M!InitialValues(c), t |-> 0, default |-> TRUE],
       [y |-> [v \in M!VarSet(c) |-> YAlt1[CHOOSE j \in DOMAIN c.vars : c.vars[j] = v]], t |-> 2, default |-> FALSE],
